@@ -1535,6 +1535,114 @@ fn compute_module_summary(module: &Module, graph: &Graph<NodeKey, ()>) -> Module
     ModuleCombSummary { feedthrough }
 }
 
+/// verif hook: `atomic_ranges` on plain `(start, length)` pairs (zero-length or
+/// overflowing spans are dropped exactly like `PackedSpan::new` drops them).
+#[cfg(veryl_verif)]
+pub fn verif_atomic_ranges(
+    spans: &[(usize, usize)],
+    endpoints: Option<&[usize]>,
+) -> Vec<(usize, usize)> {
+    let spans: Vec<PackedSpan> = spans
+        .iter()
+        .filter_map(|(start, length)| PackedSpan::new(*start, *length))
+        .collect();
+    let endpoints: Option<HashSet<usize>> =
+        endpoints.map(|endpoints| endpoints.iter().copied().collect());
+    atomic_ranges(&spans, endpoints.as_ref())
+        .into_iter()
+        .map(|atom| (atom.start, atom.length))
+        .collect()
+}
+
+/// verif hook: `PackedSpan` algebra on plain pairs: (intersection, overlaps,
+/// translated(from, to) of the first span).
+#[cfg(veryl_verif)]
+#[allow(clippy::type_complexity)]
+pub fn verif_packed_span_ops(
+    a: (usize, usize),
+    b: (usize, usize),
+    from: usize,
+    to: usize,
+) -> Option<(Option<(usize, usize)>, bool, Option<(usize, usize)>)> {
+    let a = PackedSpan::new(a.0, a.1)?;
+    let b = PackedSpan::new(b.0, b.1)?;
+    Some((
+        a.intersection(b).map(|span| (span.start, span.length)),
+        a.overlaps(b),
+        a.translated(from, to).map(|span| (span.start, span.length)),
+    ))
+}
+
+/// verif hook: per module (in the order `check` visits them), the bit
+/// partition and the dependency graph `check` runs its SCC walk on.
+/// Partition rows: (variable path, array start, array length, atoms as
+/// (start, length)); edges: (source, destination) as (variable path, array
+/// start, array length, atom index).
+#[cfg(veryl_verif)]
+#[allow(clippy::type_complexity)]
+pub fn verif_module_graphs(
+    ir: &Ir,
+) -> Vec<(
+    String,
+    Vec<(String, usize, usize, Vec<(usize, usize)>)>,
+    Vec<((String, usize, usize, usize), (String, usize, usize, usize))>,
+)> {
+    let mut ret = Vec::new();
+    let mut summaries: HashMap<StrId, ModuleCombSummary> = HashMap::default();
+    for &idx in &topo_order_modules(ir) {
+        let Component::Module(module) = &ir.components[idx] else {
+            continue;
+        };
+        if module.suppress_unassigned {
+            continue;
+        }
+        let name = |id: VarId| {
+            module
+                .variables
+                .get(&id)
+                .map(|variable| variable.path.to_string())
+                .unwrap_or_else(|| format!("?{id:?}"))
+        };
+        let mut ctx = Context::default();
+        ctx.variables = module.variables.clone();
+        ctx.functions = module.functions.clone();
+        let bit_part = build_bit_partition(module, &mut ctx);
+        let mut partition = Vec::new();
+        for id in module.variables.keys() {
+            for span in bit_part.array_spans(*id) {
+                let atoms = bit_part
+                    .ranges_of((*id, *span))
+                    .iter()
+                    .map(|atom| (atom.start, atom.length))
+                    .collect();
+                partition.push((name(*id), span.start, span.length, atoms));
+            }
+        }
+        partition.sort();
+        let graph = build_module_graph(module, &summaries);
+        let mut edges = Vec::new();
+        for edge in graph.edge_references() {
+            let source = graph[edge.source()];
+            let destination = graph[edge.target()];
+            edges.push((
+                (name(source.0), source.1.start, source.1.length, source.2),
+                (
+                    name(destination.0),
+                    destination.1.start,
+                    destination.1.length,
+                    destination.2,
+                ),
+            ));
+        }
+        edges.sort();
+        edges.dedup();
+        let summary = compute_module_summary(module, &graph);
+        summaries.insert(module.name, summary);
+        ret.push((module.name.to_string(), partition, edges));
+    }
+    ret
+}
+
 #[cfg(test)]
 mod region_tests {
     use super::*;
